@@ -102,23 +102,29 @@ def up (st : State) (j : Nat) : Nat → State
     if i = j || !less st j i then st
     else up (swap st i j) i f
 
+/-- the child `j` that `down` compares with: `j1 = 2i+1`, or `j2 = j1+1` if
+    `j2 < n && h.Less(j2, j1)` -/
+def child (st : State) (i n : Nat) : Nat :=
+  if 2 * i + 1 + 1 < n && less st (2 * i + 1 + 1) (2 * i + 1) then 2 * i + 1 + 1 else 2 * i + 1
+
 /-- `container/heap.down(h, i0, n)`; returns the final position (`i > i0` is Go's result);
     fuel `n` suffices. -/
 def down (st : State) (i n : Nat) : Nat → State × Nat
   | 0 => (st, i)
   | f + 1 =>
-    let j1 := 2 * i + 1
-    if j1 ≥ n then (st, i)
-    else
-      let j := if j1 + 1 < n && less st (j1 + 1) j1 then j1 + 1 else j1
-      if !less st j i then (st, i)
-      else down (swap st i j) j n f
+    if 2 * i + 1 ≥ n then (st, i)
+    else if !less st (child st i n) i then (st, i)
+    else down (swap st i (child st i n)) (child st i n) n f
 
 /-- `heap.Fix(h, i)`: `if !down(h, i, h.Len()) { up(h, i) }` -/
 def fix (st : State) (i : Nat) : State :=
   let n := st.heap.size
   let r := down st i n n
   if r.2 > i then r.1 else up r.1 i (i + 1)
+
+/-- `tssi.qval = v; heap.Fix(&tssQ, tssi.qidx)` -/
+def fixQval (st : State) (id : Nat) (v : T64) (qidx : Nat) : State :=
+  fix { st with items := setQval st.items id v } qidx
 
 /-- `heap.Push(h, x)` for an item already in the map under `k`:
     `x.qidx = len(q); q = append(q, x); up(h, len-1)` -/
@@ -237,7 +243,9 @@ def handleRequestG (strict : Bool) (cap icap : Nat) (st : State) (id : Nat) (req
   let txt0 := if strict && !(rxt0 < now) then rxt0 + 1 else now
   match st.items.find id with
   | some it =>
-    let (rxt, txt) := uniq it.buf rxt0 txt0 (it.buf.length + 1)
+    let u := uniq it.buf rxt0 txt0 (it.buf.length + 1)
+    let rxt := u.1
+    let txt := u.2
     let rxt64 := ofTime rxt
     let txt64 := ofTime txt
     let sc := scan it.buf req.org
@@ -246,7 +254,7 @@ def handleRequestG (strict : Bool) (cap icap : Nat) (st : State) (id : Nat) (req
     let st1 : State :=
       match sc.mx with
       | some (_, v) =>
-        if after rxt64 v then fix { st with items := setQval st.items id rxt64 } it.qidx
+        if after rxt64 v then fixQval st id rxt64 it.qidx
         else st
       | none => st
     let e : Entry := ⟨rxt64, txt64, id⟩
@@ -328,7 +336,7 @@ def updateTX (st : State) (id : Nat) (rxt txt1 : Int) : State × Int :=
         let st1 : State :=
           match sc.m0, sc.m1 with
           | some (_, v0), some (_, v1) =>
-            if v0 = rxt64 then fix { st with items := setQval st.items id v1 } it.qidx
+            if v0 = rxt64 then fixQval st id v1 it.qidx
             else st
           | _, _ => st
         ({ st1 with items := setBuf st1.items id
